@@ -1258,7 +1258,22 @@ x_kill_task(void) {
 	}
 	mark_stopped();
 }
-static void x_cut_cb(tpt_p tpt, void *udata) { (void)tpt; (void)udata; if (0 == atomic_load(&g_finished)) { c_out->cut_done = 1; x_kill_task(); } atomic_fetch_add(&g_cut, 1); }
+static void
+x_cut_cb(tpt_p tpt, void *udata) {
+	(void)tpt; (void)udata;
+	if (0 == atomic_load(&g_finished)) {
+		c_out->cut_done = 1;
+		if (c_scn->cut_close_only && NULL != g_task && !g_task_dead) {
+			/* header: tp_task_ident_close() = tp_task_stop(); close(ident); ident = -1 -- also while the task only waits
+			 * for its retry delay (no socket at that moment) */
+			tp_task_ident_close(g_task);
+			mark_stopped();
+		} else
+			x_kill_task();
+		c_out->natt_at_cut = atomic_load(&x_natt);
+	}
+	atomic_fetch_add(&g_cut, 1);
+}
 static void x_final_cb(tpt_p tpt, void *udata) { (void)tpt; (void)udata; x_kill_task(); atomic_fetch_add(&g_final, 1); }
 
 static void
